@@ -72,6 +72,9 @@ def cases(tier, seed):
                 for rot in ("cube0", "gen0", "cube5"):
                     out.append({"shape": list(shape), "rot": rot, "range": list(RANGES[ri]), "axis": axis,
                                 "range2": list(RANGES[(ri + 1) % len(RANGES)]), "tier": tier})
+    # more than 2**20 voxels and not cubic (a long filament box): beyond any "small grid" fast path
+    for rot, ri, axis in (("cube0", 0, "y"), ("gen0", 1, "x")) + ((("gen1", 0, "x"), ("cube5", 3, "y")) if tier == "thorough" else ()):
+        out.append({"shape": [64, 160, 128], "rot": rot, "range": list(RANGES[ri]), "axis": axis, "range2": list(RANGES[(ri + 1) % len(RANGES)]), "tier": tier})
     return out
 
 
@@ -163,6 +166,10 @@ def run_case(case):
                     f"mask[k] != mask[-k] on {int(asym.sum())} Nyquist-free bins of box {shape} (rot {case['rot']}, range {rng}); first k={k}",
                 )
             )
+    # 1b. apply_mask (mask times a given spectrum) and the model's own record of its range
+    judge(f"single_axis[{axis}].apply_mask", single_axis(rng, axis).apply_mask(rot, np.full(shape, 2.0, dtype=np.float32)))
+    if tuple(float(v) for v in single_axis(rng, axis).tilt_range) != tuple(float(v) for v in rng):
+        viol.append((f"{ID}|single_axis[{axis}].tilt_range|value|{sc}", f"tilt_range {single_axis(rng, axis).tilt_range} for {rng}"))
     # 2. helpers with a y axis only
     if axis == "y":
         judge("Backend.missing_wedge_mask", Backend().missing_wedge_mask(rot, rng, shape))
@@ -171,6 +178,7 @@ def run_case(case):
         k2, d2, _ = wedge.expected(shape, rotmat, rng2, "x")
         dm = dual_axis(rng, rng2).create_mask(rot, shape)
         judge("dual_axis.create_mask", dm, keep=keep | k2, drop=drop & d2, what="union")
+        judge("dual_axis.apply_mask", dual_axis(rng, rng2).apply_mask(rot, np.full(shape, 0.5, dtype=np.float32)), keep=keep | k2, drop=drop & d2, what="union")
         sy = np.asarray(single_axis(rng, "y").create_mask(rot, shape)) != 0
         sx = np.asarray(single_axis(rng2, "x").create_mask(rot, shape)) != 0
         if not np.array_equal(np.asarray(dm) != 0, sy | sx):
